@@ -38,11 +38,18 @@ KEYS_RR = ["Model.remove_reactions"]
 def run(rep):
     run_property(rep, KEYS, more=[(RENAME_KEYS, c02_rename.HOOKS), (BOUNDARY_KEYS, c02_boundary.HOOKS), (KEYS_UG, U.HOOKS), (KEYS_AM, AM.HOOKS),
                                    (KEYS_RR, RR.HOOKS), (GR.KEYS, GR.HOOKS), (RM.KEYS, RM.HOOKS), (RAM.KEYS, RAM.HOOKS),
-                                   (RAM.KEYS_SUB, RAM.HOOKS_SUB), (AR.KEYS, AR.HOOKS), (RRC.KEYS, RRC.HOOKS), (ARC.KEYS, ARC.HOOKS),
-                                   (AMC.KEYS, AMC.HOOKS), (RMC.KEYS, RMC.HOOKS), (RG.KEYS, RG.HOOKS), (RN.KEYS_VISIT, RN.HOOKS_VISIT), (RN.KEYS, RN.HOOKS), (RP.KEYS, RP.HOOKS)]
-                 + ([(RRO.KEYS, RRO.HOOKS)] if rep.tier == "thorough" else []) + list(ARITH.GROUPS),
-                 lemmas=lambda: (U.lemmas() + RAM.lemmas() + RRC.lemmas() + ARC.lemmas() + ARITH.lemmas() + AMC.lemmas()
-                                 + RMC.lemmas() + RN.lemmas() + (RRO.lemmas() if rep.tier == "thorough" else [])), explanation=(
+                                   (RAM.KEYS_SUB, RAM.HOOKS_SUB), (AR.KEYS, AR.HOOKS),
+                                   (RG.KEYS, RG.HOOKS), (RN.KEYS_VISIT, RN.HOOKS_VISIT), (RN.KEYS, RN.HOOKS), (RP.KEYS, RP.HOOKS)]
+                 # contracts whose HOME is another property's quick check (C03: the in-context contracts; C12: reaction arithmetic) are
+                 # re-verified here in the thorough tier only: with them the quick check of C02 ran past 900 s
+                 + ([(RRC.KEYS, RRC.HOOKS), (ARC.KEYS, ARC.HOOKS), (AMC.KEYS, AMC.HOOKS), (RMC.KEYS, RMC.HOOKS), (RRO.KEYS, RRO.HOOKS)]
+                    + list(ARITH.GROUPS) if rep.tier == "thorough" else []),
+                 lemmas=lambda: (U.lemmas() + RAM.lemmas() + RN.lemmas()
+                                 + ((RRC.lemmas() + ARC.lemmas() + ARITH.lemmas() + AMC.lemmas() + RMC.lemmas() + RRO.lemmas())
+                                    if rep.tier == "thorough" else [])), explanation=(
+        "(QUICK TIER: the in-context contracts of remove_reactions / add_reactions / add_metabolites / remove_metabolites and reaction "
+        "arithmetic named below are verified by the quick checks of C03 and C12, their home properties, and re-verified under C02 in the "
+        "thorough tier only.) "
         "(THOROUGH TIER ONLY - its heaviest loop obligation needs ~60 s and a retry seed, too unstable for the quick check:) "
         "Model.remove_reactions with a context open AND remove_orphans=True (key Model.remove_reactions[context:orphans], contracts/c02_remove_reactions_ctx_orph.py; lists and models of any size, any depth of the context stack): the final state exactly as the no-context remove_orphans=True case proves it (in particular NO model pointer other than those of the listed reactions and of the orphaned metabolites changes: an orphaned gene keeps `_model`, a write to it fails the contract) plus the undo registrations of the remove_orphans=False in-context contract (same clauses) and additionally, complete both ways and nothing twice, all in the innermost context: one partial(self.genes.add, g) exactly for every gene g that left model.genes (registered after g's back-reference entry), one partial(grp.add_members, [g]) exactly for every group of the model that contained such a gene at entry (after the gene's own entry), and the RECORDED call self.remove_metabolites(m) exactly for every orphaned metabolite (an abstract call with an assumed effect; what it registers itself is the proved contract Model.remove_metabolites[context]); glue lemma undo-restores:genes-content (replaying the genes.add entries gives back the entry membership of model.genes; fails without the completeness clause). Inner loops carry an explicit frame for the heap fields _model / _reaction / _members (the engine does not check loop bodies against a loop's modifies). Preconditions: those of the two base contracts plus `no listed reaction is a gene of a listed reaction`; the lists returned by Model.get_associated_groups assumed free of duplicates at the call sites. "
         "Model.repair (contracts/c02_repair.py), PROVED for rebuild_relationships=False with rebuild_index True or False, models of any size: with rebuild_index each of the four DictLists (reactions, metabolites, genes, groups) keeps its members in place and gets a REGENERATED, well-formed index (the proved _generate_index contract; stated precondition: the identifiers of each list are pairwise different; without rebuild_index: lists well formed at entry), every member of the four lists - groups included - points at the model afterwards, nothing that pointed at it loses its pointer, no cross-reference set / identifier / list changes and nothing is registered (repair never calls get_context; only its callee update_genes_from_gpr registers). The default rebuild_relationships=True is NOT proved (specification and invariants drafted in the module, path generation did not finish in the session; the case is not registered). FINDING reported there with its native reproduction: repair() rebuilds the gene associations BEFORE it re-points `_model`, so for a listed reaction whose model pointer is lost the rule's genes are created as free-floating Gene objects and the model's own gene lists no reaction - the cross-reference invariant does NOT hold after one repair() (it does after a second one). "
